@@ -15,6 +15,7 @@ import (
 	"sync"
 	"testing"
 	"testing/synctest"
+	"time"
 
 	"github.com/modelcontextprotocol/go-sdk/mcp"
 	"github.com/modelcontextprotocol/go-sdk/verif/memhttp"
@@ -39,6 +40,9 @@ type Script struct {
 	Calls      []int  `json:"calls"`      // calls per session
 	Standalone []bool `json:"standalone"` // session opens the standalone GET stream
 	Steps      []Step `json:"steps"`
+	// StoreDelayUs makes the event store's Open/Append take this long (virtual time): it opens
+	// interleaving windows inside the handler's critical paths without touching the SDK.
+	StoreDelayUs int `json:"store_delay_us,omitempty"`
 }
 
 func genScript(rt *rapid.T, race bool) Script {
@@ -52,9 +56,12 @@ func genScript(rt *rapid.T, race bool) Script {
 		s.Calls = append(s.Calls, rapid.IntRange(1, 5).Draw(rt, "calls"))
 		s.Standalone = append(s.Standalone, rapid.IntRange(0, 3).Draw(rt, "standalone") > 0)
 	}
+	if s.Store {
+		s.StoreDelayUs = rapid.SampledFrom([]int{0, 0, 100, 1000}).Draw(rt, "store_delay")
+	}
 	n := rapid.IntRange(1, 40).Draw(rt, "n")
 	for i := 0; i < n; i++ {
-		st := Step{Kind: rapid.SampledFrom([]string{"note", "note", "note", "detached", "finish", "after"}).Draw(rt, "kind")}
+		st := Step{Kind: rapid.SampledFrom([]string{"note", "note", "note", "detached", "finish", "after", "duppair"}).Draw(rt, "kind")}
 		st.S = rapid.IntRange(0, s.Sessions-1).Draw(rt, "s")
 		st.R = rapid.IntRange(0, s.Calls[st.S]-1).Draw(rt, "r")
 		if race {
@@ -66,6 +73,18 @@ func genScript(rt *rapid.T, race bool) Script {
 }
 
 type cmd struct{ kind string }
+
+// slowStore delays Open by a virtual duration. (Append is called under the stream mutex; sleeping there
+// would park mutex waiters, which synctest cannot treat as durably blocked.)
+type slowStore struct {
+	*mcp.MemoryEventStore
+	d time.Duration
+}
+
+func (s *slowStore) Open(ctx context.Context, sess, stream string) error {
+	time.Sleep(s.d)
+	return s.MemoryEventStore.Open(ctx, sess, stream)
+}
 
 type in struct {
 	Tag string `json:"tag"`
@@ -136,10 +155,21 @@ func runInBubble(s Script) (res vt.Result) {
 	opts := &mcp.StreamableHTTPOptions{Stateless: s.Stateless, JSONResponse: s.JSON}
 	if s.Store {
 		opts.EventStore = mcp.NewMemoryEventStore(nil)
+		if s.StoreDelayUs > 0 {
+			opts.EventStore = &slowStore{mcp.NewMemoryEventStore(nil), time.Duration(s.StoreDelayUs) * time.Microsecond}
+		}
 	}
 	handler := mcp.NewStreamableHTTPHandler(func(*http.Request) *mcp.Server { return server }, opts)
 	tr := &memhttp.Transport{Handler: handler}
 	client := tr.Client()
+	// settle: quiescence, also across the slow store's virtual delays
+	settle := func() {
+		synctest.Wait()
+		if s.StoreDelayUs > 0 {
+			time.Sleep(50 * time.Millisecond)
+			synctest.Wait()
+		}
+	}
 	do := func(method, body, sessionID string) *memhttp.Exchange {
 		var rd io.Reader
 		if body != "" {
@@ -164,12 +194,37 @@ func runInBubble(s Script) (res vt.Result) {
 				resp.Body.Close()
 			}
 		}()
-		synctest.Wait()
+		settle()
 		exs := tr.Exchanges()
 		if len(exs) <= before {
 			return nil
 		}
 		return exs[before]
+	}
+	// fire starts a request without waiting for quiescence; collect() finds its exchange later by tag.
+	fire := func(body, sessionID, tag string) {
+		req, _ := http.NewRequestWithContext(memhttp.WithTag(context.Background(), tag), "POST", "http://mcp.example/mcp", strings.NewReader(body))
+		req.Header.Set("Content-Type", "application/json")
+		req.Header.Set("Accept", "application/json, text/event-stream")
+		if sessionID != "" {
+			req.Header.Set("Mcp-Session-Id", sessionID)
+		}
+		req.Header.Set("Mcp-Protocol-Version", "2025-06-18")
+		go func() {
+			resp, err := client.Do(req)
+			if err == nil {
+				io.Copy(io.Discard, resp.Body)
+				resp.Body.Close()
+			}
+		}()
+	}
+	byTag := func(tag string) *memhttp.Exchange {
+		for _, ex := range tr.Exchanges() {
+			if ex.Tag == tag {
+				return ex
+			}
+		}
+		return nil
 	}
 	defer func() {
 		mu.Lock()
@@ -323,7 +378,56 @@ func runInBubble(s Script) (res vt.Result) {
 	}
 
 	var desc strings.Builder
+	dupN := 0
 	for i, st := range s.Steps {
+		if st.Kind == "duppair" {
+			if s.Stateless {
+				continue
+			}
+			// Two POSTs with the same fresh JSON-RPC id hit one session at the same instant. At most one may be
+			// accepted; whatever happens, each exchange may only ever carry its own messages.
+			dupN++
+			id := 50 + dupN
+			var pair []*callRec
+			for _, suffix := range []string{"a", "b"} {
+				c := &callRec{s: st.S, r: id, tag: fmt.Sprintf("s%dr%ddup%s", st.S, id, suffix)}
+				fire(fmt.Sprintf(`{"jsonrpc":"2.0","id":%d,"method":"tools/call","params":{"name":"emit","arguments":{"tag":%q},"_meta":{"progressToken":%q}}}`, id, c.tag, c.tag), sessionIDs[st.S], c.tag)
+				pair = append(pair, c)
+			}
+			synctest.Wait()
+			time.Sleep(10 * time.Millisecond)
+			synctest.Wait()
+			accepted := 0
+			for _, c := range pair {
+				c.ex = byTag(c.tag)
+				if c.ex == nil {
+					res.Failf("step %d: POST for %s produced no exchange", i, c.tag)
+					continue
+				}
+				if c.ex.Status() < 400 {
+					accepted++
+				}
+				calls = append(calls, c)
+				// both handlers (if they run) emit one message and finish
+				chanOf(c.tag) <- cmd{kind: "note"}
+				chanOf(c.tag) <- cmd{kind: "finish"}
+				if c.ex.Status() < 400 {
+					c.finished = true
+				}
+			}
+			if accepted > 1 {
+				res.Failf("step %d: two concurrent requests with the same id %d were both accepted on session %d", i, id, st.S)
+			}
+			desc.WriteString("D")
+			synctest.Wait()
+			time.Sleep(10 * time.Millisecond)
+			synctest.Wait()
+			check(i)
+			if len(res.Violations) > 0 {
+				break
+			}
+			continue
+		}
 		c := byKey[[2]int{st.S, st.R}]
 		kind := st.Kind
 		if c.finished && (kind == "note" || kind == "finish") {
@@ -343,7 +447,7 @@ func runInBubble(s Script) (res vt.Result) {
 		if st.NoWait && i < len(s.Steps)-1 {
 			continue
 		}
-		synctest.Wait()
+		settle()
 		check(i)
 		if len(res.Violations) > 0 {
 			break
@@ -356,7 +460,7 @@ func runInBubble(s Script) (res vt.Result) {
 				chanOf(c.tag) <- cmd{kind: "finish"}
 			}
 		}
-		synctest.Wait()
+		settle()
 		check(len(s.Steps))
 	}
 	// Second round: every session re-uses JSON-RPC id 0, whose first request has completed. The new
@@ -378,7 +482,7 @@ func runInBubble(s Script) (res vt.Result) {
 			c.finished = true
 			chanOf(c.tag) <- cmd{kind: "finish"}
 		}
-		synctest.Wait()
+		settle()
 		check(len(s.Steps) + 1)
 	}
 	overlap := s.Sessions >= 2
